@@ -36,7 +36,7 @@ struct VecOut {
     max_len: usize,
 }
 
-fn vec_workload<T: Copy + Default + 'static>(bytes: &[u8]) -> VecOut {
+fn vec_workload<T: Copy + Default + 'static>(bytes: &[u8], init_cap: Option<usize>) -> VecOut {
     let mut out = VecOut { viol: vec![], reallocs: 0, ops: 0, max_len: 0 };
     let bump = {
         let _g = enter_arena(1);
@@ -45,10 +45,29 @@ fn vec_workload<T: Copy + Default + 'static>(bytes: &[u8]) -> VecOut {
     {
         let _g = enter_arena(1);
         let size = std::mem::size_of::<T>();
-        let mut v: BVec<T> = BVec::new_in(&bump);
+        let mut v: BVec<T> = match init_cap {
+            Some(c) => BVec::with_capacity_in(c, &bump),
+            None => BVec::new_in(&bump),
+        };
         // amortised growth only: reserve_exact / shrink_to_fit are outside the property
         let mut first_cap = 0usize;
-        let mut high_water = 0usize; // largest len + additional ever demanded
+        let mut high_water = init_cap.unwrap_or(0); // largest len + additional ever demanded
+        if let Some(c) = init_cap {
+            // with_capacity_in(c): c elements go in without moving
+            let (cap, p) = (v.capacity(), v.as_ptr() as usize);
+            if cap < c {
+                let _u = ledger::enter_user();
+                out.viol.push(format!("Vec<{size}-byte>::with_capacity_in({c}) has capacity {cap}"));
+            }
+            for _ in 0..c {
+                v.push(T::default());
+            }
+            if v.capacity() != cap || (c > 0 && v.as_ptr() as usize != p) {
+                let _u = ledger::enter_user();
+                out.viol.push(format!("Vec<{size}-byte>::with_capacity_in({c}): pushing {c} elements moved the buffer (capacity {cap} -> {})", v.capacity()));
+            }
+            first_cap = cap;
+        }
         let src: Vec<T> = {
             let _u = ledger::enter_user();
             vec![T::default(); 4096]
@@ -202,7 +221,7 @@ fn vec_workload<T: Copy + Default + 'static>(bytes: &[u8]) -> VecOut {
     out
 }
 
-fn string_workload(bytes: &[u8]) -> VecOut {
+fn string_workload(bytes: &[u8], init_cap: Option<usize>) -> VecOut {
     let mut out = VecOut { viol: vec![], reallocs: 0, ops: 0, max_len: 0 };
     let bump = {
         let _g = enter_arena(1);
@@ -210,12 +229,35 @@ fn string_workload(bytes: &[u8]) -> VecOut {
     };
     {
         let _g = enter_arena(1);
-        let mut s = BString::new_in(&bump);
+        let mut s = match init_cap {
+            Some(c) => BString::with_capacity_in(c, &bump),
+            None => BString::new_in(&bump),
+        };
         let filler = {
             let _u = ledger::enter_user();
             "abcdefghijklmnopqrstuvwxyz012345".repeat(64)
         };
         let mut first_cap = 0;
+        if let Some(c) = init_cap {
+            // with_capacity_in(c): c bytes of text go in without moving, whatever the width of the chars
+            let (cap, p) = (s.capacity(), s.as_ptr() as usize);
+            let ch = ['x', 'é', '€', '😀'][bytes.first().cloned().unwrap_or(0) as usize % 4];
+            if cap < c {
+                let _u = ledger::enter_user();
+                out.viol.push(format!("String::with_capacity_in({c}) has capacity {cap}"));
+            }
+            for _ in 0..c / ch.len_utf8() {
+                s.push(ch);
+            }
+            for _ in 0..c % ch.len_utf8() {
+                s.push('x');
+            }
+            if s.capacity() != cap || (c > 0 && s.as_ptr() as usize != p) {
+                let _u = ledger::enter_user();
+                out.viol.push(format!("String::with_capacity_in({c}): pushing {c} bytes of {ch:?} moved the buffer (capacity {cap} -> {})", s.capacity()));
+            }
+            first_cap = cap;
+        }
         for ch in bytes.chunks(2) {
             let (k, n) = (ch[0], ch.get(1).cloned().unwrap_or(0) as usize);
             out.ops += 1;
@@ -223,14 +265,20 @@ fn string_workload(bytes: &[u8]) -> VecOut {
             let (cap0, len0, ptr0) = (s.capacity(), s.len(), s.as_ptr() as usize);
             match k % 6 {
                 0 => {
+                    // chars of every encoded width: a push that fits the capacity must stay in place
+                    let ch = ['x', 'é', '€', '😀'][(k as usize / 6) % 4];
                     for _ in 0..(1 + n * 2) {
-                        let c = s.capacity();
-                        s.push('x');
+                        let (c, l, p) = (s.capacity(), s.len(), s.as_ptr() as usize);
+                        s.push(ch);
                         if first_cap == 0 && s.capacity() != 0 {
                             first_cap = s.capacity();
                         }
                         if c != 0 && s.capacity() != c {
                             inner_reallocs += 1;
+                        }
+                        if c != 0 && l + ch.len_utf8() <= c && (s.capacity() != c || s.as_ptr() as usize != p) {
+                            let _u = ledger::enter_user();
+                            out.viol.push(format!("String: push({ch:?}) with len {l} + {} <= capacity {c} moved the buffer or changed the capacity to {}", ch.len_utf8(), s.capacity()));
                         }
                     }
                 }
@@ -243,14 +291,37 @@ fn string_workload(bytes: &[u8]) -> VecOut {
                         let _u = ledger::enter_user();
                         out.viol.push(format!("String::reserve({cnt}) on len {len0} left capacity {c}"));
                     }
-                    s.push_str(&filler[..cnt.min(filler.len())]);
+                    // fill exactly the reserved bytes: as one push_str, char by char (every width), or through Extend<char>
+                    let ch = ['x', 'é', '€', '😀'][(k as usize / 6) % 4];
+                    let w = ch.len_utf8();
+                    match (k as usize / 24) % 3 {
+                        0 => s.push_str(&filler[..cnt.min(filler.len())]),
+                        1 => {
+                            for _ in 0..cnt / w {
+                                s.push(ch);
+                            }
+                            for _ in 0..cnt % w {
+                                s.push('x');
+                            }
+                        }
+                        _ => {
+                            s.extend(std::iter::repeat(ch).take(cnt / w));
+                            s.extend(std::iter::repeat(&'x').take(cnt % w));
+                        }
+                    }
                     if cnt <= filler.len() && (s.as_ptr() as usize != p || s.capacity() != c) {
                         let _u = ledger::enter_user();
-                        out.viol.push(format!("String: after reserve({cnt}) pushing {cnt} bytes moved the buffer"));
+                        out.viol.push(format!("String: after reserve({cnt}) adding {cnt} bytes ({} of width {w}) moved the buffer", ["push_str", "push", "extend"][(k as usize / 24) % 3]));
                     }
                 }
                 4 => s.clear(),
-                _ => s.truncate(len0 / 2),
+                _ => {
+                    let mut t = len0 / 2;
+                    while !s.is_char_boundary(t) {
+                        t -= 1;
+                    }
+                    s.truncate(t)
+                }
             }
             let cap1 = s.capacity();
             out.reallocs += inner_reallocs;
@@ -418,7 +489,7 @@ impl Engine for C18Engine {
             v.insert(0, 0);
             v
         });
-        let vecw = (0u8..8, proptest::collection::vec((0u8..12, prop_oneof![4 => 0u8..16, 2 => 16u8..128, 1 => 128u8..=255]), 1..60)).prop_map(|(e, ops)| {
+        let vecw = (0u8..96, proptest::collection::vec((any::<u8>(), prop_oneof![4 => 0u8..16, 2 => 16u8..128, 1 => 128u8..=255]), 1..60)).prop_map(|(e, ops)| {
             let mut v = vec![1, e];
             for (k, n) in ops {
                 v.push(k);
@@ -447,15 +518,26 @@ impl Engine for C18Engine {
                 let _ = k_meta();
                 ledger::begin_case(5);
                 let body = bytes.get(2..).unwrap_or(&[]);
-                let r = match bytes.get(1).cloned().unwrap_or(0) % 8 {
-                    0 => vec_workload::<u8>(body),
-                    1 => vec_workload::<u16>(body),
-                    2 => vec_workload::<u32>(body),
-                    3 => vec_workload::<u64>(body),
-                    4 => vec_workload::<u128>(body),
-                    5 => vec_workload::<[u64; 3]>(body),
-                    6 => vec_workload::<[u64; 8]>(body),
-                    _ => string_workload(body),
+                let e = bytes.get(1).cloned().unwrap_or(0);
+                // the collection starts empty or with a requested capacity (with_capacity_in)
+                let ic = match e / 8 {
+                    0..=3 => None,
+                    4 => Some(1),
+                    5 => Some(7),
+                    6 => Some(12),
+                    7 => Some(64),
+                    8 => Some(1000),
+                    _ => Some(e as usize),
+                };
+                let r = match e % 8 {
+                    0 => vec_workload::<u8>(body, ic),
+                    1 => vec_workload::<u16>(body, ic),
+                    2 => vec_workload::<u32>(body, ic),
+                    3 => vec_workload::<u64>(body, ic),
+                    4 => vec_workload::<u128>(body, ic),
+                    5 => vec_workload::<[u64; 3]>(body, ic),
+                    6 => vec_workload::<[u64; 8]>(body, ic),
+                    _ => string_workload(body, ic),
                 };
                 ledger::end_case();
                 let mut stats = vec![0u32; NST];
